@@ -29,6 +29,11 @@ func (w *C16) Run(t *rt.Tape, trace bool, seed uint64) *core.Result {
 		return res
 	}
 	kind := []int{twopc.OTCO, twopc.OTCO, twopc.OTCOT}[t.Choose(rt.SGen, 3)]
+	Verbose = t.Choose(rt.SGen, 4) == 0 // verbose evaluator, verbose and diagnostic streaming compiler
+	if Verbose {
+		res.Reach["option.verbose"]++
+	}
+	defer func() { Verbose = false }()
 	smp := Sample{Program: prog.Name, In0: c.In[0], In1: c.In[1], Circuit: gen.Describe(c.Circ), OT: twopc.OTNames[kind], Pipe: core.DescribeDir(dir)}
 	if prog.Name == "generated" {
 		smp.Source = prog.Src
